@@ -87,7 +87,9 @@ def steps_to_script(run_id, steps, mode="gated", tag=""):
 
 
 def run_harness(scripts, wd, name="t", shards=8, timeout=900):
-    """Run scripts (list of dicts) through the harness in `shards` parallel processes; returns trace paths."""
+    """Run scripts (list of dicts) through the harness in `shards` parallel processes; returns trace paths.
+    A shard whose process dies or hangs is re-run one script per process; scripts that still kill or hang
+    the process are reported in `bad` as (script id, reason) and left out of the traces."""
     n = max(1, min(shards, len(scripts)))
     procs, traces = [], []
     for k in range(n):
@@ -97,19 +99,34 @@ def run_harness(scripts, wd, name="t", shards=8, timeout=900):
         with open(sp, "w") as f:
             for s in part:
                 f.write(json.dumps(s, separators=(",", ":")) + "\n")
-        procs.append(subprocess.Popen([RLH, "run", sp, tp], stdout=subprocess.PIPE, stderr=subprocess.STDOUT))
+        procs.append((k, part, subprocess.Popen([RLH, "run", sp, tp], stdout=subprocess.PIPE, stderr=subprocess.STDOUT)))
         traces.append(tp)
     bad = []
-    for k, p in enumerate(procs):
+    for k, part, p in procs:
+        ok = True
         try:
             out, _ = p.communicate(timeout=timeout)
+            ok = p.returncode == 0
         except subprocess.TimeoutExpired:
             p.kill()
-            out = b"timeout"
-            bad.append((k, "timeout"))
+            ok = False
+        if ok:
             continue
-        if p.returncode != 0:
-            bad.append((k, out.decode("utf-8", "replace")[-2000:]))
+        # isolate: one process per script, shorter leash
+        tp = traces[k]
+        with open(tp, "w") as tf:
+            for s in part:
+                sp1 = os.path.join(wd, "%s.%d.one.scripts.ndjson" % (name, k))
+                tp1 = os.path.join(wd, "%s.%d.one.trace.ndjson" % (name, k))
+                open(sp1, "w").write(json.dumps(s, separators=(",", ":")) + "\n")
+                try:
+                    r = subprocess.run([RLH, "run", sp1, tp1], stdout=subprocess.PIPE, stderr=subprocess.STDOUT, timeout=180)
+                    if r.returncode == 0:
+                        tf.write(open(tp1).read())
+                    else:
+                        bad.append((s.get("id"), "harness process died: " + r.stdout.decode("utf-8", "replace")[-300:]))
+                except subprocess.TimeoutExpired:
+                    bad.append((s.get("id"), "harness process hung"))
     return traces, bad
 
 
